@@ -2,7 +2,8 @@
 # Confirms every seeded mutant independently: applies the patch in a scratch worktree of /repo,
 # builds, runs the pinned test suite, runs the demonstration against the mutant binary (must fail)
 # and against the binary of the unmodified tree (must pass), and files the result under
-# /verif/seeded/<id>/.  Usage: confirm_seeded.sh <dir with Cxx/patchK.diff demoK.sh notesK.md>
+# /verif/seeded/<id>/.  Usage: [KOFF=2] [ONLY="C01 C02"] confirm_seeded.sh <dir with Cxx/patchK.diff demoK.sh notesK.md>
+# KOFF shifts the ids (wave 2: patch1 -> Cxx-m3); ONLY restricts to some properties.
 SRC=${1:-/tmp/mut/out}
 WT=/var/tmp/mut-confirm
 OUT=/verif/seeded
@@ -11,9 +12,11 @@ git -C /repo worktree add -q --detach $WT HEAD || exit 1
 cd $WT && cargo build --offline >/dev/null 2>&1 && cp target/debug/monorail /var/tmp/monorail.orig
 for d in $SRC/C??; do
   P=$(basename $d)
+  [ -d $d ] || continue
+  if [ -n "$ONLY" ] && ! echo " $ONLY " | grep -q " $P "; then continue; fi
   for k in 1 2; do
     [ -f $d/patch$k.diff ] || continue
-    ID=$P-m$k
+    ID=$P-m$((k+${KOFF:-0}))
     mkdir -p $OUT/$ID
     cp $d/patch$k.diff $OUT/$ID/patch.diff
     [ -f $d/demo$k.sh ] && cp $d/demo$k.sh $OUT/$ID/demo.sh
